@@ -676,6 +676,7 @@ class Fn:
             body, n = rw.apply(body, where)
             applied.append(rw.rid)
         body = strip_inner_attrs(body)
+        self._last_source = it.body      # the function's source as it stands in /repo (used by attribution rules)
         if re.search(r"\(\s*mut self\b", sig):
             # R18: Verus rejects `mut self`; bind it to a local instead (same semantics)
             sig = re.sub(r"\(\s*mut self\b", "(self", sig, count=1)
@@ -932,8 +933,10 @@ class Unit:
             if c.props:
                 cprops[c.label] = sorted(c.props)
             else:
-                toks = re.match(r"((?:C\d\d-)*)", c.label).group(1).strip("-").split("-")
-                cprops[c.label] = sorted(set(props) | set(t for t in toks if t))
+                # a label that starts with property ids belongs to exactly those properties; an unlabelled clause
+                # (frame, wf, helper definitions) to the properties of its function / unit
+                toks = [t for t in re.match(r"((?:C\d\d-)*)", c.label).group(1).strip("-").split("-") if t]
+                cprops[c.label] = sorted(set(toks)) if toks else sorted(set(props))
         self.fns[fid] = {"kind": kind, "clauses": {c.label: c for c in clauses}, "props": props,
                          "clause_props": cprops, "lemma": lemma, "obj": obj}
 
